@@ -34,7 +34,7 @@ def arguments_part(rep, wd, exe, tier, seed):
     jf = vec + ".jf"
     with open(vec) as f, open(jf, "w") as g:
         for line in f:
-            if '"jf"' in line:
+            if '"jf"' in line or '"conv"' in line:      # the tables vector carries the Arguments probes (lazy reads, ParseInto)
                 g.write(line)
     replay_vectors(rep, exe, "replay-C14", jf)
 
